@@ -419,6 +419,13 @@ func c14Scenarios(tier string) []*Scenario {
 var _ = math.MaxInt64
 var _ = strings.Join
 
+// m5Rounds: reports per goroutine and handle in M5 (the more unordered pairs of accesses, the less a detection depends
+// on how busy the machine is).
+const m5Rounds = 48
+
+// m5Tight: reports per goroutine in the tight single-kind loops that follow.
+const m5Tight = 300
+
 // c14RaceScenarios: bodies for the free-running -race pass only.
 func c14RaceScenarios(tier string) []*Scenario {
 	sc := &Scenario{Property: "C14", Name: "M3-same-bucket-handle-two-goroutines"}
@@ -469,11 +476,22 @@ func c14RaceScenarios(tier string) []*Scenario {
 			i := i
 			ths = append(ths, rt.GoNamed("user", func() {
 				gate()
-				for k := 0; k < 8; k++ {
+				for k := 0; k < m5Rounds; k++ {
 					v := int64(i*1000 + k + 1)
 					c.ReportCount(v)
 					g.ReportGauge(float64(v))
 					tm.ReportTimer(time.Duration(v))
+				}
+				// then each kind on its own in a tight loop (timers are what applications report from many goroutines;
+				// the shorter the rest of the loop, the larger the share of time two calls spend inside the same handle)
+				for k := 0; k < m5Tight; k++ {
+					tm.ReportTimer(time.Duration(int64(i*1000 + 500 + k)))
+				}
+				for k := 0; k < m5Tight; k++ {
+					c.ReportCount(int64(i*1000 + 500 + k))
+				}
+				for k := 0; k < m5Tight; k++ {
+					g.ReportGauge(float64(i*1000 + 500 + k))
 				}
 			}))
 		}
@@ -484,7 +502,7 @@ func c14RaceScenarios(tier string) []*Scenario {
 			return
 		}
 		seen := map[string]int{}
-		for _, dg := range s.drainUntil(func(d [][]byte) bool { return userMetrics("compact", d) >= 96 }) {
+		for _, dg := range s.drainUntil(func(d [][]byte) bool { return userMetrics("compact", d) >= 4*(m5Rounds+m5Tight)*3 }) {
 			msg, err := decodeMessage("compact", dg)
 			if err != nil {
 				continue
@@ -501,10 +519,14 @@ func c14RaceScenarios(tier string) []*Scenario {
 			}
 		}
 		for i := 0; i < 4; i++ {
-			for k := 0; k < 8; k++ {
+			for k := 0; k < m5Rounds+m5Tight; k++ {
+				v := i*1000 + k + 1
+				if k >= m5Rounds {
+					v = i*1000 + 500 + (k - m5Rounds)
+				}
 				for _, kind := range []string{"c", "g", "t"} {
-					if n := seen[fmt.Sprint(kind, i*1000+k+1)]; n != 1 {
-						x.failf("value-reported-through-shared-handle-not-delivered-exactly-once", "%s value %d reported once by goroutine %d through a handle shared by four goroutines arrived %d times", kind, i*1000+k+1, i, n)
+					if n := seen[fmt.Sprint(kind, v)]; n != 1 {
+						x.failf("value-reported-through-shared-handle-not-delivered-exactly-once", "%s value %d reported once by goroutine %d through a handle shared by four goroutines arrived %d times", kind, v, i, n)
 						return
 					}
 				}
